@@ -31,7 +31,7 @@ PT_TOL = 1e-9
 
 def floors(tier):
     return {"judged": 3000, "partition_none_free": 50, "partition_some_free": 1000, "partition_all_free": 300,
-            "binding_truncation": 300, "intercepted_calls": 300, "inputs_with_idle_free_variables": 300, "inputs_in_tiny_length_units_with_memory": 150, "restarted_runs": 20, "restarted_runs_with_gradient_scaler": 8, "restarted_runs_from_a_checkpoint_whose_iteration_counter_was_reset": 6, "runs_with_single_precision_gradient": 10, "inputs_with_single_precision_gradient_array": 300, "inputs_whose_memory_was_built_under_a_curvature_threshold_of_one_half_and_more": 150, "inputs_with_a_tiny_step_component_limiting_the_truncation": 150, "runs_with_callback_editing_the_state_pairs": 20, "runs_with_optimisation_nested_in_the_callback": 20, "descent_checked": 2000, "__nontrivial__": 250}
+            "binding_truncation": 300, "intercepted_calls": 300, "inputs_with_idle_free_variables": 300, "inputs_in_tiny_length_units_with_memory": 150, "restarted_runs": 20, "restarted_runs_with_gradient_scaler": 8, "restarted_runs_from_a_checkpoint_whose_iteration_counter_was_reset": 6, "runs_with_single_precision_gradient": 10, "inputs_with_single_precision_gradient_array": 300, "inputs_served_by_the_matrices_object_of_the_previous_call": 600, "inputs_whose_memory_was_built_under_a_curvature_threshold_of_one_half_and_more": 150, "inputs_with_a_tiny_step_component_limiting_the_truncation": 150, "runs_with_callback_editing_the_state_pairs": 20, "runs_with_optimisation_nested_in_the_callback": 20, "descent_checked": 2000, "__nontrivial__": 250}
 
 
 def judge_subspace(out, x, xc, g, lb, ub, B, xbar, where, tags, mats=None, c=None):
@@ -251,10 +251,12 @@ def run(spec):
                 if mm is not None:
                     mems[npairs] = mm
             last = None
-            for idxs in allp:
+            # (the memory is the outer loop: consecutive calls are made with the SAME matrices object on boxes whose free sets differ,
+            #  often in their members only, not in their size - as in a run after a rejected pair)
+            for npairs, (mats, B), idxs in [(k_, v_, i_) for k_, v_ in mems.items() for i_ in allp]:
                 pats = [VARP[i] for i in idxs]
                 for variant in ("random", "tie"):
-                    for npairs, (mats, B) in mems.items():
+                    for _once in (0,):
                         x, g, lb, ub = build_pattern_input(rng, pats, variant)
                         out.count("pattern_inputs")
                         synthetic_input(out, keys, x, g, lb, ub, mats, B, f"pattern {pats} variant={variant} pairs={npairs}",
@@ -320,6 +322,17 @@ def run(spec):
                     out.count("inputs_with_idle_free_variables")
                 out.count("random_inputs")
                 synthetic_input(out, keys, x, g, lb, ub, mats, B, f"random n={n} pairs={npairs}", dict(source="random"))
+                if j % 4 == 0 and xunit == 1.0 and idle is None and n >= 3 and not out.violations:
+                    # the SAME matrices object serves further calls on other boxes and points (as in a run after a rejected pair): the free
+                    # set changes, often in its members only
+                    for _rep in range(3):
+                        lb2, ub2 = gen.rand_box(rng, n, gen.pick(rng, ["mixed", "boxed", "lower", "upper"]))
+                        x2 = gen.rand_x0(rng, lb2, ub2, gen.pick(rng, ["face", "vertex", "interior"]))
+                        g2 = rng.standard_normal(n) * np.exp(rng.uniform(-2, 3))
+                        out.count("inputs_served_by_the_matrices_object_of_the_previous_call")
+                        synthetic_input(out, keys, x2, g2, lb2, ub2, mats, B, f"random n={n} pairs={npairs} (same matrices object as the previous call)", dict(source="random"))
+                        if out.violations:
+                            break
                 last = dict(n=n, pairs=npairs, x=x, g=g, lb=lb, ub=ub)
                 if out.violations:
                     break
